@@ -25,8 +25,9 @@ class FramingServer:
     """Peer that accepts the bind (header signing on/off), records the exact layout of the
     request PDU it receives, and answers with a sealed reply of a chosen stub and pad length."""
 
-    def __init__(self, seal: provider.SealKey, sign: bool, reply_stub: bytes, reply_pad: int) -> None:
+    def __init__(self, seal: provider.SealKey, sign: bool, reply_stub: bytes, reply_pad: int, alloc: str = "padded") -> None:
         self.seal, self.sign, self.reply_stub, self.reply_pad = seal, sign, reply_stub, reply_pad
+        self.alloc = alloc        # alloc_hint of the reply is only a hint: padded stub length, the stub length without auth padding, or 0
         self.buf = b""
         self.auth: t.Optional[dict] = None
         self.obs: t.Optional[dict] = None
@@ -84,7 +85,8 @@ class FramingServer:
         a = self.auth or {"type": 9, "level": 6, "ctx": 0}
         rbody = self.reply_stub + bytes((0xA5 + 7 * i) & 0xFF for i in range(self.reply_pad))  # pad octets are arbitrary
         sl = self.seal.sig_len
-        hdr = refdc.pdu_header(refdc.PT_RESPONSE, fl, 16 + 8 + len(rbody) + 8 + sl, sl, h["call_id"]) + struct.pack("<IHBB", len(rbody), 0, 0, 0)
+        hdr = refdc.pdu_header(refdc.PT_RESPONSE, fl, 16 + 8 + len(rbody) + 8 + sl, sl, h["call_id"]) + \
+            struct.pack("<IHBB", {"padded": len(rbody), "unpadded": len(self.reply_stub), "zero": 0}[self.alloc], 0, 0, 0)
         rtr8 = struct.pack("<BBBBI", a["type"], a["level"], self.reply_pad, 0, a["ctx"])
         rct, rsig = provider.server_seal(self.seal, seq, hdr, rbody, rtr8, bool(used))
         return hdr + rct + rtr8 + rsig
@@ -107,13 +109,14 @@ def _vt():
     return VerificationTrailer([CommandPContext(flags=CommandFlags.SEC_VT_COMMAND_END, interface_id=ISD_KEY, transfer_syntax=NDR64)])
 
 
-def one_request(stub: bytes, vt: bool, sig_len: int, sign: bool, flavour: str, reply_stub: bytes = b"\x00" * 16, reply_pad: int = 0) -> tuple[dict, t.Any, list]:
+def one_request(stub: bytes, vt: bool, sig_len: int, sign: bool, flavour: str, reply_stub: bytes = b"\x00" * 16, reply_pad: int = 0,
+                alloc: str = "padded") -> tuple[dict, t.Any, list]:
     from dpapi_ng._rpc import AsyncRpcClient, SyncRpcClient
     from dpapi_ng._rpc._auth import AuthenticationProvider
 
     log: list = []
     seal = provider.SealKey(sig_len=sig_len)
-    srv = FramingServer(seal, sign, reply_stub, reply_pad)
+    srv = FramingServer(seal, sign, reply_stub, reply_pad, alloc)
 
     def factory() -> provider.ScriptedContext:
         c = provider.ScriptedContext([ctok(1)], complete_after=1, sig_len=sig_len, log=log)
@@ -267,7 +270,8 @@ def run(ctx: Ctx) -> int:
             for pad in range(16):
                 if kind == "seed" and namelen % 4 == 1:
                     # an error reply: HRESULT must be reported, whatever the padding
-                    obs, resp, _ = one_request(b"\x00" * 32, True, 16, True, "sync", reply_stub=refdc.get_key_response(b"", 0x80070005), reply_pad=pad)
+                    obs, resp, _ = one_request(b"\x00" * 32, True, 16, True, "sync", reply_stub=refdc.get_key_response(b"", 0x80070005), reply_pad=pad,
+                                               alloc=("padded", "unpadded", "zero")[pad % 3])
                     try:
                         _process_get_key_result(resp)
                         res = "mismatch"
@@ -277,7 +281,7 @@ def run(ctx: Ctx) -> int:
                         res = "error:" + type(e).__name__
                     rows.append({"id": len(rows), "kind": "reply", "env": 0, "pad": pad, "res": res, "fl": "sync", "reply_kind": "hresult"})
                 fl = "sync" if (pad + namelen) % 2 else "async"
-                obs, resp, _ = one_request(b"\x00" * 32, True, 16, True, fl, reply_stub=rstub, reply_pad=pad)
+                obs, resp, _ = one_request(b"\x00" * 32, True, 16, True, fl, reply_stub=rstub, reply_pad=pad, alloc=("padded", "unpadded", "zero")[(pad + namelen) % 3])
                 try:
                     g = _process_get_key_result(resp)
                     res = "ok" if g.pack() == env else "mismatch"
